@@ -396,16 +396,25 @@ fn read_handle(mut f: File, read: bool, handle: &mut Option<HandleInfo>) -> Res 
     }
 }
 
-thread_local! {
-    /// Some(offset): the application stages its sources and temp-file objects in the write cache's own
-    /// `.kismet_temp` (the documented workflow) and they carry a modification time `offset` nanoseconds away from
-    /// the clock (a file copied with its timestamps preserved, or written by a host whose clock runs ahead)
-    pub static STAGED_SOURCE: std::cell::Cell<Option<i64>> = const { std::cell::Cell::new(None) };
+/// Some(offset): the application stages its sources and temp-file objects in the write cache's own `.kismet_temp` (the
+/// documented workflow) and they carry a modification time `offset` nanoseconds away from the clock (a file copied with
+/// its timestamps preserved, or written by a host whose clock runs ahead).  Process-wide: participant threads see it.
+static STAGED_SOURCE_NS: std::sync::atomic::AtomicI64 = std::sync::atomic::AtomicI64::new(i64::MIN);
+
+pub fn set_staged_source(offset_ns: Option<i64>) {
+    STAGED_SOURCE_NS.store(offset_ns.unwrap_or(i64::MIN), std::sync::atomic::Ordering::SeqCst);
+}
+
+fn staged_source() -> Option<i64> {
+    match STAGED_SOURCE_NS.load(std::sync::atomic::Ordering::SeqCst) {
+        i64::MIN => None,
+        v => Some(v),
+    }
 }
 
 /// Creates the application's own source file for a by-path set/put.
 fn make_source(dirs: &Dirs, v: Val) -> std::io::Result<tempfile::NamedTempFile> {
-    if let Some(off) = STAGED_SOURCE.with(|s| s.get()) {
+    if let Some(off) = staged_source() {
         let dir = dirs.write.join(".kismet_temp");
         crate::shim::passthrough(|| std::fs::create_dir_all(&dir))?;
         let mut t = tempfile::NamedTempFile::new_in(&dir)?;
